@@ -301,6 +301,14 @@ func uriSamples(t *rapid.T, label string) []fmtSample {
 		{scheme + "://exa" + rapid.SampledFrom([]string{"<", ">", "\"", " ", "{", "|"}).Draw(t, label+"BadHost") + "mple.com" + path, false},
 		{ok + "#a#b", false},
 		{scheme + "://a@b@" + host + path, false},
+		// control characters in the fragment, a percent sign without its two hex digits in the query, a
+		// second colon in the host, square brackets outside an IP literal
+		{scheme + "://" + host + port + path + q + rapid.SampledFrom([]string{"#a\tb", "#\x7f", "#a\nb", "#\x01"}).Draw(t, label+"CtlFrag"), false},
+		{scheme + "://" + host + port + path + rapid.SampledFrom([]string{"?q=%zz", "?d=100%", "?a=%4", "?%"}).Draw(t, label+"BadPct"), false},
+		{scheme + "://" + host + rapid.SampledFrom([]string{":80:80", ":b:80", "::1"}).Draw(t, label+"Colons") + path, false},
+		{scheme + "://" + host + port + rapid.SampledFrom([]string{"/[x]", "/a?a[]=1", "/#]", "/a[", "?["}).Draw(t, label+"Brackets"), false},
+		// percent-encoded characters in a registered name
+		{scheme + "://" + rapid.SampledFrom([]string{"example%2Ecom", "a%2Db", "%41"}).Draw(t, label+"PctHost") + port + path, true},
 		// user info may hold percent-encoded characters - an encoded '@' among them
 		{scheme + "://" + rapid.SampledFrom([]string{"john%40example.com@", "u:p%40ss@", "a%2Fb@", "user@"}).Draw(t, label+"UserInfo") + host + port + path, true},
 	}
